@@ -54,6 +54,7 @@ pub fn check(bc: &BuildCase, fam: &str, obs: &mut Obs) -> Result<(), Fail> {
                 obs.nontrivial(bc.hash());
             }
         }
+        Err(BuildErr::Panicked) => unreachable!("fq::build reports panics as the outer Err"),
     }
     obs.sample(&format!("{}|{}", fam, if r.is_ok() { "ok" } else { "err" }), || bc.to_sample());
     Ok(())
